@@ -71,6 +71,7 @@ type ExStats struct {
 	ModelChecks                   int
 	FanoutCapHits                 int
 	Fallbacks                     int
+	Narrowed                      int // decisions at which only one alternative was kept (see Explorer.Narrow)
 }
 
 type Explorer struct {
@@ -94,10 +95,18 @@ type Explorer struct {
 	prefixFresh bool // the last prefix step is an alternative nobody explored yet (work stealing)
 
 	FanoutCap int
-	xValid    int  // number of levels of the second solver's stack that match the current decision prefix
-	noFork    bool // set during predicated execution: any need to fork aborts it
-	St        ExStats
-	inconc    []string
+	// Narrow: keep one alternative (the one the current model satisfies) at
+	// every new decision instead of all feasible ones. Set by the runner once a
+	// job has produced more paths than its cap, and by the interpreter for
+	// single decisions inside number-formatting code: the exploration turns
+	// from exhaustive into one solver-chosen path per open prefix, and the
+	// number of such decisions is reported as a reduced bound.
+	Narrow     bool
+	NarrowOnce bool
+	xValid     int  // number of levels of the second solver's stack that match the current decision prefix
+	noFork     bool // set during predicated execution: any need to fork aborts it
+	St         ExStats
+	inconc     []string
 }
 
 func NewExplorer(tt *TermTable, s, xs *Solver, xEvery int) *Explorer {
@@ -338,7 +347,23 @@ func (ex *Explorer) choose(kind string, alts []*Term, emptyKind string) int {
 	// frontier
 	d := &Decision{nAlts: len(alts), kind: kind}
 	memo := map[int]uint64{}
+	narrow := (ex.Narrow || ex.NarrowOnce) && kind == "branch"
+	ex.NarrowOnce = false
+	if narrow && ex.model != nil {
+		// the alternative of the current model first
+		for i, a := range alts {
+			if !a.IsFalse() && (a.IsTrue() || Eval(a, ex.model, memo) == 1) {
+				d.feasible = append(d.feasible, i)
+				d.models = append(d.models, ex.model)
+				break
+			}
+		}
+	}
 	for i, a := range alts {
+		if narrow && len(d.feasible) > 0 {
+			ex.St.Narrowed++
+			break
+		}
 		if a.IsFalse() {
 			continue
 		}
@@ -597,7 +622,13 @@ func (ex *Explorer) Concretize(t *Term) uint64 {
 	s := ex.solver
 	s.ref(t) // define the term before check-sat: a definition added after it is not part of the model
 	s.Push()
+	narrow := ex.Narrow || ex.NarrowOnce
+	ex.NarrowOnce = false
 	for {
+		if narrow && len(d.values) == 1 {
+			ex.St.Narrowed++
+			break
+		}
 		r := s.Check()
 		if r == "unknown" {
 			s.Pop(1)
